@@ -68,6 +68,9 @@ def _mk_stub(act: str, registry: dict):
         val = ir.Value(name=f"val_{counter[0]}")
         if connected:
             ctx.builder.nodes.append(SimpleNamespace(outputs=[val]))
+        elif counter[0] % 2 == 0:
+            # a value that HAS a producer node — one that was never added to the graph
+            ir.Node("", "Identity", inputs=[], outputs=[val], name=f"orphan_{counter[0]}")
         return val
 
     class Stub:
@@ -232,10 +235,29 @@ def check_dispatcher(chk: Check, rng: common.Rng, n: int) -> None:
 # ----------------------------------------------------------------------------- optimizer policy
 
 
+def verif_fn_block(x):
+    import jax
+    import jax.numpy as jnp
+    return jnp.transpose(jax.nn.relu(jnp.transpose(x, (0, 2, 1))), (0, 2, 1)) * 2.0
+
+
+_FN_BLOCK = None
+
+
+def _fn_block():
+    global _FN_BLOCK, verif_fn_block
+    if _FN_BLOCK is None:
+        from jax2onnx import onnx_function
+        verif_fn_block = onnx_function(verif_fn_block)
+        _FN_BLOCK = verif_fn_block
+    return _FN_BLOCK
+
+
 def policy_programs():
     import jax
     import jax.numpy as jnp
     from jax import lax
+    _fn_block()   # decorate the module-level function; programs call it through the module global
     w = np.arange(3 * 3 * 3 * 4, dtype=np.float32).reshape(3, 3, 3, 4) / 50.0 - 1.0
 
     def conv(x):
@@ -255,6 +277,7 @@ def policy_programs():
         ("reshape_chain", lambda x: jnp.reshape(jax.nn.relu(jnp.reshape(x, (2, 12))), (2, 3, 4)) + 1.0,
          [(2, 3, 4)], {}),
         ("cast_chain", lambda x: (x.astype(jnp.float64).astype(jnp.float32) * 2.0).astype(jnp.float32), [(3, 4)], {}),
+        ("with_function", lambda x: verif_fn_block(x) + verif_fn_block(x * 0.5), [(2, 3, 4)], {}),
     ]
 
 
@@ -271,7 +294,10 @@ def check_policy(chk: Check, thorough: bool) -> None:
     class Abort(RuntimeError):
         pass
 
+    fired = [0]
+
     def boom(*a, **k):
+        fired[0] += 1
         raise Abort("injected optimizer abort")
 
     try:
@@ -280,28 +306,37 @@ def check_policy(chk: Check, thorough: bool) -> None:
                   for s in specs]
             ref = fn(*xs)
             ref = list(ref) if isinstance(ref, (tuple, list)) else [ref]
-            for k in range(len(passes) + 1):
+            has_fn = name == "with_function"
+            modes = [("top", k) for k in range(len(passes) + 1)]
+            if has_fn:
+                modes += [("function_body", k) for k in range(len(passes))
+                          if passes[k].function_graph_runner is not None]
+            for mode, k in modes:
                 if k < len(passes):
                     p = passes[k]
-                    inj = dataclasses.replace(
-                        p,
-                        model_runner=boom if p.model_runner is not None else None,
-                        graph_runner=boom if p.graph_runner is not None else None,
-                        function_graph_runner=boom if p.function_graph_runner is not None else None)
+                    if mode == "top":
+                        inj = dataclasses.replace(
+                            p,
+                            model_runner=boom if p.model_runner is not None else None,
+                            graph_runner=boom if p.graph_runner is not None else None,
+                            function_graph_runner=boom if p.function_graph_runner is not None else None)
+                    else:   # the top graph is optimised normally, the abort happens in a function body
+                        inj = dataclasses.replace(p, function_graph_runner=boom)
                     opt._OPTIMIZER_PASSES = passes[:k] + (inj,) + passes[k + 1:]
                     pname = p.name
                 else:
                     opt._OPTIMIZER_PASSES = passes
                     pname = "<no abort>"
-                case = {"program": name, "abort_at_pass": k, "pass": pname}
+                case = {"program": name, "abort_at_pass": k, "pass": pname, "phase": mode}
                 try:
                     # default policy: a model comes back and it is right
                     os.environ.pop(env_key, None)
+                    fired[0] = 0
                     try:
                         model = to_onnx(fn, [tuple(s) for s in specs], **kw)
                     except Exception as e:  # noqa: BLE001
                         chk.finding({"kind": "default_policy_raises", **case},
-                                    f"{name}: abort at pass {k} ({pname}) is not swallowed: {type(e).__name__}", case)
+                                    f"{name}: abort at pass {k} ({pname}, {mode}) is not swallowed: {type(e).__name__}", case)
                         continue
                     n_inj += 1
                     chk.count(case, nontrivial=True)
@@ -322,19 +357,36 @@ def check_policy(chk: Check, thorough: bool) -> None:
                         bad = f"invalid model: {type(e).__name__}: {str(e)[:120]}"
                     if bad:
                         chk.finding({"kind": "partial_optimization_changes_model", **case},
-                                    f"{name}: optimizer aborted at pass {k} ({pname}); returned model: {bad}", case)
-                    # strict policy: re-raised
-                    if k < len(passes):
-                        os.environ[env_key] = "1"
-                        try:
-                            to_onnx(fn, [tuple(s) for s in specs], **kw)
-                            chk.finding({"kind": "strict_policy_swallows", **case},
-                                        f"{name}: strict policy did not re-raise the abort at pass {k}", case)
-                        except Abort:
-                            pass
-                        except Exception as e:  # noqa: BLE001
-                            chk.finding({"kind": "strict_policy_other_error", **case},
-                                        f"{name}: strict policy raised {type(e).__name__} instead of the abort", case)
+                                    f"{name}: optimizer aborted at pass {k} ({pname}, {mode}); returned model: {bad}", case)
+                    # strict policy: re-raised — requested through the environment and through the API
+                    if k < len(passes) and fired[0] == 0:
+                        chk.add("injections_that_never_fired")
+                    if k < len(passes) and fired[0] > 0:
+                        for how in ("env", "api"):
+                            try:
+                                if how == "env":
+                                    os.environ[env_key] = "1"
+                                    to_onnx(fn, [tuple(s) for s in specs], **kw)
+                                else:
+                                    os.environ.pop(env_key, None)
+                                    import jax
+                                    import jax.numpy as jnp
+                                    import jax2onnx.converter.conversion_api as capi
+                                    capi.to_onnx(fn=fn, inputs=[jax.ShapeDtypeStruct(tuple(s), jnp.float32) for s in specs],
+                                                 input_params=None, model_name="strict", opset=23,
+                                                 enable_double_precision=False, record_primitive_calls_file=None,
+                                                 strict_optimizer_failures=True, **kw)
+                                chk.finding({"kind": "strict_policy_swallows", "how": how, **case},
+                                            f"{name}: strict policy ({how}) did not re-raise the abort at pass {k} "
+                                            f"({pname}, {mode})", case)
+                            except Abort:
+                                pass
+                            except Exception as e:  # noqa: BLE001
+                                chk.finding({"kind": "strict_policy_other_error", "how": how, **case},
+                                            f"{name}: strict policy ({how}) raised {type(e).__name__} instead of the abort",
+                                            case)
+                            finally:
+                                os.environ.pop(env_key, None)
                 finally:
                     os.environ.pop(env_key, None)
             if not thorough and name == "reshape_cast":
@@ -482,14 +534,14 @@ def check_unsupported(chk: Check) -> None:
     from jax2onnx import to_onnx, onnx_function
 
     unk = _unknown_primitive()
-    fn_body_unknown = _function_with_unknown_body()
+    _function_with_unknown_body()   # decorate; the program calls it through the module global
 
     cases = [
         ("unregistered_top", lambda x: unk(x) + 1.0, [(3,)]),
         ("unregistered_in_fori_body", lambda x: lax.fori_loop(0, 2, lambda i, c: unk(c), x), [(3,)]),
         ("unregistered_in_cond_branch",
          lambda x: lax.cond(jnp.sum(x) > 0, lambda v: unk(v), lambda v: v, x), [(3,)]),
-        ("unregistered_in_function_body", lambda x: fn_body_unknown(x) * 2.0, [(3,)]),
+        ("unregistered_in_function_body", lambda x: verif_fn_body_unknown(x) * 2.0, [(3,)]),
         ("unregistered_in_scan_body",
          lambda x: lax.scan(lambda c, e: (unk(c) + e, c), x, jnp.ones((2, 3), dtype=x.dtype))[0], [(3,)]),
         ("switch_3_way",
@@ -499,6 +551,20 @@ def check_unsupported(chk: Check) -> None:
          lambda x: lax.scan(lambda c, e: (c * 0.5 + e, c), jnp.zeros((3,), x.dtype), x, reverse=True)[1], [(4, 3)]),
         ("dynamic_fori_bound",
          lambda x, n: lax.fori_loop(0, n, lambda i, c: c + 1.0, x), [(3,), ()]),
+        ("reverse_scan_no_xs",
+         lambda x: lax.scan(lambda c, _: (c * 2.0 + 1.0, c), x, None, length=4, reverse=True)[1], [(3,)]),
+        ("reverse_scan_two_xs",
+         lambda x, y: lax.scan(lambda c, e: (c + e[0] * e[1], c * e[0]), jnp.zeros((3,), x.dtype), (x, y),
+                               reverse=True)[1], [(4, 3), (4, 3)]),
+        ("reverse_scan_in_fori",
+         lambda x: lax.fori_loop(0, 2, lambda i, v: lax.scan(lambda c, e: (c * 0.5 + e, c), v[0], v, reverse=True)[1],
+                                 x), [(4, 3)]),
+        ("switch_4_way",
+         lambda x: lax.switch(jnp.asarray(jnp.sum(x) > 0, dtype=jnp.int32) * 3,
+                              [lambda v: v, lambda v: v * 2.0, lambda v: v * 3.0, lambda v: -v], x), [(3,)]),
+        ("scan_unroll_reverse",
+         lambda x: lax.scan(lambda c, e: (c - e, c + e), jnp.ones((3,), x.dtype), x, reverse=True, unroll=2)[1],
+         [(4, 3)]),
     ]
     outcomes = {}
     for name, fn, specs in cases:
